@@ -232,8 +232,15 @@ def S_B(lengths=(2, 3)):
     return IRSpace(A_RED, lengths, RETURNS_RED, KWARGS, (0,))
 
 
+# chain space: the reduced atoms plus falsy explicit defaults (zero-like values are where hops lose information)
+A_CHAIN = A_RED + [
+    ("Optional[int]", ("int", 0), "the {n}"),
+    ("bool", ("bool", False), "the {n}"),
+]
+
+
 def S_C():
-    return IRSpace(A_RED, (0, 1, 2), RETURNS_RED, KWARGS, (0,))
+    return IRSpace(A_CHAIN, (0, 1, 2), RETURNS_RED, KWARGS, (0,))
 
 
 def ir_space(tier, with_b4=False):
